@@ -22,6 +22,7 @@ From GV Require Import Prelude.Base.
 From Coq Require Import String.
 From GVgen Require Import Tables_Reader.
 Local Open Scope string_scope.
+Local Open Scope list_scope.
 
 (* ------------------------------------------------------------------ keys, addresses, values *)
 Inductive ekind := KGroup | KObject | KData.
